@@ -54,35 +54,36 @@ def op_strategy(depth=1):
             "op": st.just("hookctx"),
             "hook": st.sampled_from(["probe1", "probe2", "rewrite", "extrude", "drop"]),
             "body": st.lists(inner, max_size=4)})
-        return st.one_of(inner, inner, inner, inner, inner, ctx)
+        return hist.weighted((7, inner), (1, ctx))
     c = hist.small_coord()
     pt = st.fixed_dictionaries({}, optional={"x": c, "y": c, "z": c})
     v = st.one_of(st.integers(0, 3000).map(float), st.floats(min_value=0, max_value=1e4))
     params = st.fixed_dictionaries({}, optional={"F": v, "A": c, "E": st.floats(min_value=-50, max_value=50)})
-    return st.one_of(
-        st.tuples(st.sampled_from(["move", "move", "move", "rapid", "move_absolute",
-                                   "rapid_absolute"]), pt, params).map(
-            lambda t: {"op": t[0], "pt": t[1], "params": t[2]}),
-        st.tuples(st.sampled_from(["move", "move_absolute"]), pt, params).map(
-            lambda t: {"op": t[0], "pt": t[1], "params": t[2]}),
-        st.fixed_dictionaries({"op": st.just("shape"), "dir": st.sampled_from(["cw", "ccw"]),
-                               "d": st.one_of(
-            st.fixed_dictionaries({"shape": st.just("polyline"),
-                                   "pts": st.lists(st.tuples(c, c, c), min_size=1, max_size=4),
-                                   "zgiven": st.booleans()}),
-            st.fixed_dictionaries({"shape": st.just("arc"), "r": st.floats(min_value=1, max_value=20),
-                                   "a0": st.floats(min_value=-3, max_value=3),
-                                   "sweep": st.floats(min_value=0.3, max_value=5.5),
-                                   "dz": st.just(0.0), "zgiven": st.just(False)}))}),
-        st.sampled_from(["absolute", "relative"]).map(lambda m: {"op": "set_distance_mode", "mode": m}),
-        st.sampled_from(["absolute", "relative"]).map(lambda m: {"op": "set_extrusion_mode", "mode": m}),
-        st.one_of(st.just(0.0), st.just(0.0), st.floats(min_value=-20, max_value=20)).map(
-            lambda e: {"op": "set_axis_E", "E": e}),
-        st.sampled_from(["probe1", "probe2", "rewrite", "extrude", "extrude", "drop"]).map(
-            lambda h: {"op": "add_hook", "hook": h}),
-        st.sampled_from(["probe1", "probe2", "rewrite", "extrude", "drop"]).map(
-            lambda h: {"op": "remove_hook", "hook": h}),
-        st.just({"op": "other_builder"}),
+    shape = st.fixed_dictionaries({"op": st.just("shape"), "dir": st.sampled_from(["cw", "ccw"]),
+                                   "d": hist.equally(
+        st.fixed_dictionaries({"shape": st.just("polyline"),
+                               "pts": st.lists(st.tuples(c, c, c), min_size=1, max_size=4),
+                               "zgiven": st.booleans()}),
+        st.fixed_dictionaries({"shape": st.just("arc"), "r": st.floats(min_value=1, max_value=20),
+                               "a0": st.floats(min_value=-3, max_value=3),
+                               "sweep": st.floats(min_value=0.3, max_value=5.5),
+                               "dz": st.just(0.0), "zgiven": st.just(False)}))})
+    return hist.weighted(
+        (8, st.tuples(st.sampled_from(["move", "move", "move", "move", "rapid", "move_absolute",
+                                       "move_absolute", "rapid_absolute"]), pt, params).map(
+            lambda t: {"op": t[0], "pt": t[1], "params": t[2]})),
+        (3, shape),
+        (2, st.sampled_from(["absolute", "relative"]).map(
+            lambda m: {"op": "set_distance_mode", "mode": m})),
+        (2, st.sampled_from(["absolute", "relative"]).map(
+            lambda m: {"op": "set_extrusion_mode", "mode": m})),
+        (2, st.one_of(st.just(0.0), st.floats(min_value=-20, max_value=20)).map(
+            lambda e: {"op": "set_axis_E", "E": e})),
+        (3, st.sampled_from(["probe1", "probe2", "rewrite", "extrude", "extrude", "drop"]).map(
+            lambda h: {"op": "add_hook", "hook": h})),
+        (2, st.sampled_from(["probe1", "probe2", "rewrite", "extrude", "drop"]).map(
+            lambda h: {"op": "remove_hook", "hook": h})),
+        (1, st.just({"op": "other_builder"})),
     )
 
 
